@@ -74,10 +74,12 @@ def make_items(seed, n):
     return items
 
 
-def diff_rows(it):
-    """rows (bit, set, reset) of the table in which the emitted latch differs from the specification"""
+def diff_rows(it, ideal=False):
+    """rows (bit, set, reset) of the table in which the emitted latch differs from the specification
+    (ideal: on the circuit idealised from the compiler's logical edges)"""
     try:
-        defs, expr, meta = S.case_for(it.id, it.decls, it.bpj, entities=it.entities, mems=it.mems)
+        defs, expr, meta = S.case_for(it.id, it.decls, it.bpj, entities=it.entities, mems=it.mems,
+                                      ideal=(it.harvest if ideal else None), harvest=it.harvest)
     except Exception:  # noqa: BLE001
         return None
     if not meta.get("latches"):
@@ -88,7 +90,7 @@ def diff_rows(it):
     rc, outs, text = H.coq_eval(defs, exprs, S.EXTRA, tag=f"lr{it.id}")
     if not outs or outs[0] is None:
         return None
-    rows = re.findall(r"\((true|false),\s*(true|false),\s*(true|false)\)", outs[0])
+    rows = re.findall(r"\(\s*(true|false)\s*,\s*(true|false)\s*,\s*(true|false)\s*\)", outs[0])
     rows = [tuple(x == "true" for x in row) for row in rows]
     m = next(iter(it.mems.values()))
     if m.get("set") == m.get("reset"):
@@ -225,6 +227,16 @@ def run(tier, seed, t0):
             if it.detail.get("kind", "").startswith("compile") or "memories" in it.detail:
                 continue
             rows = diff_rows(it)
+            if rows == [] and it.detail.get("ideal_circuit_passes") is False and it.detail.get("partition_matches_design") \
+                    and it.harvest and "edges" in it.harvest:
+                # the emitted circuit does not even settle around the latch (shared networks: S12), and the
+                # idealised circuit deviates in the both-active rows only (S3 / S4): two known findings at once
+                rows_i = diff_rows(it, ideal=True)
+                if rows_i and all(s_ and r_ for _, s_, r_ in rows_i):
+                    it.status = "known:S12"
+                    it.detail["differing_rows_of_the_idealised_circuit(bit,set,reset)"] = rows_i
+                    counts["S3"] += 1
+                    continue
             if rows and all(s_ and r_ for _, s_, r_ in rows):
                 m = next(iter(it.mems.values()))
                 inlined = "mem:mem_%s (latch)" % m["name"] in json_desc(it) and "signal_remapper" not in json_desc(it)
